@@ -1,4 +1,5 @@
 """Verification of one function against its contract; use of contracts at call sites."""
+import os
 import time
 import traceback
 import types
@@ -9,12 +10,11 @@ except ImportError:      # replays run under the repository's interpreter, witho
     z3 = None
 
 from . import frontend
-from . import regex  # noqa: F401  (registers the assumed contract of re.Pattern.match)
-from .api import Ty, Contract
+from .api import Ty, Contract, Dependent
 from .interp import Interp, PyRaise, Closure, BoundMethod
 from .loops import _call_pred, _param_names
 from .path import PathState, PathAbort, RetryPath, Unsupported
-from .values import SBool, SInt, Sym, SOpt, SChoice, to_z3, wrap
+from .values import SBool, SInt, Sym, SOpt, SChoice, contains_sym, to_z3, wrap
 
 MAX_PATHS = 4000
 
@@ -62,7 +62,7 @@ def _clause_env(bound, ghosts, extra):
 def apply_contract(interp, c, func, args, kwargs):
     """Modular call: assert the precondition, havoc, assume the postcondition."""
     st = interp.st
-    st.used_contracts.add(c.qname)
+    st.used_contracts.add(getattr(c, 'key', c.qname))
     if c.returns is None and c.yields is None:
         from .api import _returns_a_value
         if c.returns_value is None:
@@ -121,74 +121,118 @@ def apply_contract(interp, c, func, args, kwargs):
     old = None
     if c.old is not None:
         old = _call_pred(interp, c.old, env)
+        env = dict(env, old=old)      # `when` conditions of exceptional outcomes may mention the pre-state
+    ev_name = c.event[0] if isinstance(c.event, tuple) else c.event
     if isinstance(c.event, tuple):
-        # (name, payload): the payload predicate is evaluated now, on the state at the call
-        st.emit(c.event[0], dict(bound), _call_pred(interp, c.event[1], env))
+        # (name, payload): the payload expression is evaluated now, on the state at the call, and recorded
+        # with the event: (name, arguments, payload)
+        st.emit(ev_name, dict(bound), _call_pred(interp, c.event[1], env))
     elif c.event is not None:
         st.emit(c.event, dict(bound))
-    # deterministic `when` conditions are about the pre-state: evaluate them before the frame is havocked
-    whens = []
-    for exc_cls, spec in c.raises.items():
-        when = spec.get('when')
-        if when is not None:
-            whens.append((exc_cls, spec, interp.truth(_call_pred(interp, when, env))))
-    if c.modifies:
-        havoc_modifies(interp, c, bound)
+    # deterministic `when` conditions of exceptional outcomes are predicates of the PRE-state: evaluated before
+    # the frame is havoced (the callee may change the fields they read)
+    when_pre = {}
+    for exc_cls_, spec_ in c.raises.items():
+        if spec_.get('when') is not None:
+            when_pre[exc_cls_] = interp.truth(_call_pred(interp, spec_['when'], env))
+    # frame: ghost state the callee may change (entries 'ghost:<key>' of `modifies`) is havoced;
+    # what is known about it afterwards is what the (exceptional) postconditions say
+    short = c.qname.rpartition(':')[2]
+    for key, ty in (c.modifies.items() if isinstance(c.modifies, dict) else ()):
+        if hasattr(ty, 'havoc_in_place'):
+            # an object whose (ghost) state the callee changes: havocked in place, identity kept
+            path = key.split('.')
+            obj = bound[path[0]]
+            if isinstance(obj, (SOpt, SChoice)):
+                obj = interp.resolve(obj)
+            for a in path[1:]:
+                obj = interp.getattr(obj, a)
+            ty.havoc_in_place(interp, obj, '%s@%s' % (key, short))
+            continue
+        if isinstance(ty, Dependent):
+            v = ty.make_for_call(interp, '%s@%s' % (key, short), env)
+        else:
+            v = ty.make(interp, '%s@%s' % (key, short)) if isinstance(ty, Ty) else ty
+        if key.startswith('ghost:'):
+            st.ghost[key[6:]] = v
+        else:
+            # object field reachable from a parameter: 'self._x', 'self._a._b' (private names written mangled)
+            path = key.split('.')
+            if path[0] not in bound or len(path) < 2:
+                raise Unsupported('modifies entry %r of %s: unknown base' % (key, c.qname))
+            obj = bound[path[0]]
+            for a in path[1:-1]:
+                obj = interp.getattr(obj, a)
+            if isinstance(obj, (SOpt, SChoice)):
+                obj = interp.resolve(obj)
+            interp.setattr(obj, path[-1], v)
+
+    if c.modifies and not isinstance(c.modifies, dict):
+        _havoc_modified(interp, c, bound)
 
     def raise_(exc_cls, spec):
         exc = _make_exc(interp, exc_cls, spec, env)
         ens = spec.get('ensures')
         if isinstance(ens, tuple) and callable(ens[1]):      # (clause, when): see the same form in `ensures`
             ens = ens[0] if ens[1](interp.fn_name) else None
-        if c.modifies and ens is not None:
-            # the frame was havocked: what the exceptional postcondition says about it is all that is known
-            envx = _clause_env(bound, ghosts, {'exc': exc, 'old': old, 'trace': st.trace, 'ghost': st.ghost})
-            st.assume(interp.truth(_call_pred(interp, ens, envx, assumed=True)))
+        elif isinstance(ens, tuple):                         # (clause, 'check-only')
+            ens = None
+        if ens is not None and 'trace' not in _param_names(ens):
+            # exceptional postcondition: assumed of the exception the callee raises
+            env_x = _clause_env(bound, ghosts, {'exc': exc, 'old': old, 'trace': st.trace, 'ghost': st.ghost})
+            try:
+                st.assume(interp.truth(_call_pred(interp, ens, env_x, assumed=True)))
+            except PyRaise as e:
+                raise Unsupported('exceptional postcondition of %s raised %r when assumed at a call site'
+                                  % (c.qname, e.exc))
+        if c.event is not None:
+            st.emit(ev_name + ':raised', dict(bound), exc)
         raise PyRaise(exc)
 
     # exceptional outcomes
-    for exc_cls, spec, w in whens:
-        if interp.st.fork(w):
-            raise_(exc_cls, spec)
-    nondet = [(exc_cls, spec) for exc_cls, spec in c.raises.items() if spec.get('when') is None]
-    nondet += [(exc_cls, {}) for exc_cls in c.may_raise]
-    if nondet:
-        k = st.choose(1 + len(nondet))
-        if k > 0:
-            raise_(*nondet[k - 1])
-    from .api import _Int as _I, _Bool as _B, _Str as _S
+    outcomes = ['return']
+    for exc_cls, spec in c.raises.items():
+        outcomes.append(('raise', exc_cls, spec))
+    for exc_cls in c.may_raise:
+        outcomes.append(('raise', exc_cls, {}))
+    if len(outcomes) > 1:
+        # deterministic `when` conditions first
+        for exc_cls, spec in c.raises.items():
+            when = spec.get('when')
+            if when is not None:
+                w = when_pre[exc_cls]
+                if interp.st.fork(w):
+                    raise_(exc_cls, spec)
+        nondet = [o for o in outcomes[1:] if o[2].get('when') is None]
+        if nondet:
+            k = st.choose(1 + len(nondet))
+            if k > 0:
+                _, exc_cls, spec = nondet[k - 1]
+                raise_(exc_cls, spec)
+    from .api import _Bool as _B, _Str as _S
     if getattr(c, 'pure_result', False):
-        for n in list(bound):
-            if isinstance(bound[n], (SOpt, SChoice)):
-                bound[n] = interp.resolve(bound[n])
-    if getattr(c, 'pure_result', False) and isinstance(c.returns, (_I, _B, _S)) and \
+        for n_ in list(bound):
+            if isinstance(bound[n_], (SOpt, SChoice)):
+                bound[n_] = interp.resolve(bound[n_])
+    if getattr(c, 'pure_result', False) and isinstance(c.returns, (_Int, _B, _S)) and \
             all(isinstance(v, (SInt, SBool, int, str, bool)) or type(v).__name__ == 'SStr' for v in bound.values()):
         # a deterministic function without effects: its result is an uninterpreted function of the arguments
         # (that it is one is what `pure_result=True` claims: the body reads nothing but its arguments)
-        names = list(bound)
-        ts = [to_z3(bound[n]) for n in names]
-        rs = {_I: z3.IntSort(), _B: z3.BoolSort(), _S: z3.StringSort()}[type(c.returns)]
-        uf = z3.Function('fn.' + c.qname.replace(':', '.'), *([t.sort() for t in ts] + [rs]))
-        result = wrap(uf(*ts))
-    elif isinstance(c.returns, Ty):
-        result = c.returns.make(interp, 'ret.%s' % c.qname.rpartition(':')[2])
-    elif callable(c.returns):
-        # the result is built from the actual arguments (e.g. an object that refers to them)
-        result = c.returns(interp, bound)
+        ts_ = [to_z3(bound[n_]) for n_ in bound]
+        rs_ = {_Int: z3.IntSort(), _B: z3.BoolSort(), _S: z3.StringSort()}[type(c.returns)]
+        uf_ = z3.Function('fn.' + c.qname.replace(':', '.'), *([t.sort() for t in ts_] + [rs_]))
+        result = wrap(uf_(*ts_))
+    elif isinstance(c.returns, Dependent):
+        result = c.returns.make_for_call(interp, 'ret.%s' % short, env)
     else:
-        result = None
+        result = c.returns.make(interp, 'ret.%s' % short) if isinstance(c.returns, Ty) else None
     if c.yields is not None:
         # a generator used through its contract: all its items at once (its effects happen at the call)
         from .models import SIter
         ys = c.yields.make(interp, 'yielded.%s' % c.qname.rpartition(':')[2])
         ghosts = dict(ghosts, yielded=ys)
-        result = SIter(ys, 0)
-    if c.event is not None:
-        st.emit((c.event[0] if isinstance(c.event, tuple) else c.event) + ':returned', result)
+        result = SIter(ys, 0, eager=True)
     env2 = _clause_env(bound, ghosts, {'result': result, 'old': old, 'trace': st.trace, 'ghost': st.ghost})
-    n_pc = len(st.pc)
-    n_dec0 = len(st.decisions)
-    feasible_before = (c.modifies is not None or callable(c.returns)) and st.check(timeout_ms=300) == z3.sat
     for name, clause in c.ensures.items():
         if isinstance(clause, tuple) and callable(clause[1]):
             # (clause, when): proved of the function, but assumed at a call site only where
@@ -196,146 +240,173 @@ def apply_contract(interp, c, func, args, kwargs):
             if not clause[1](interp.fn_name):
                 continue
             clause = clause[0]
-        elif isinstance(clause, tuple):       # (clause, 'effect') : executed for its effect on ghost state
+        elif isinstance(clause, tuple):
+            if clause[1] == 'check-only':   # proved of the function, not assumed at call sites
+                continue
+            # (clause, 'effect') : executed for its effect on ghost state
             _call_pred(interp, clause[0], env2)
             continue
-        n_dec = len(st.decisions)
+        if 'trace' in _param_names(clause):
+            # describes the events *during* the call: says nothing about the caller's trace (check-only)
+            continue
         try:
-            st.assume(interp.truth(_call_pred(interp, clause, env2, assumed=True)))
-        except PathAbort:
-            if len(st.decisions) != n_dec:
-                raise        # one alternative of a case split made inside the clause (e.g. on the result) is ruled out
-            # The postcondition is plainly false of the state after the frame havoc: the contract cannot be
-            # used like this (e.g. a field havocked as an opaque value that the postcondition identifies with an
-            # existing object).  Letting the path die here would silently drop everything after the call.
-            raise Unsupported('call of %s through its contract in %s: ensures[%s] is false after the frame havoc '
-                              '(use inline=True or a frame that can produce the promised state)'
-                              % (c.qname, caller, name))
-    if feasible_before and len(st.decisions) == n_dec0 and len(st.pc) > n_pc and \
-            st.check(timeout_ms=300) == z3.unsat:
-        # The path was satisfiable, the frame was havocked, and the postcondition -- without any case split
-        # that could have ruled out an alternative -- made it unsatisfiable: the havoc cannot produce a state the
-        # postcondition describes (typically: it promises the identity of an object that the havoc re-created).
-        # Everything after this call would be "proved" vacuously.
-        raise Unsupported('call of %s through its contract in %s: the postcondition cannot be satisfied by the '
-                          'state after the frame havoc (vacuous continuation)' % (c.qname, caller))
+            n_dec = len(st.decisions)
+            v = interp.truth(_call_pred(interp, clause, env2, assumed=True))
+            if v is False and not st.scopes and len(st.decisions) == n_dec:
+                raise Unsupported('postcondition %r of %s is constantly false for the havoced result at a call site '
+                                  '(identity with a fresh object? use a Dependent shape or a check-only clause)'
+                                  % (name, c.qname))
+            st.assume(v)
+        except PyRaise as e:
+            # an ill-defined clause must not look like an exception of the code under verification
+            raise Unsupported('postcondition %r of %s raised %r when assumed at a call site'
+                              % (name, c.qname, e.exc))
+    if c.event is not None:
+        st.emit(ev_name + ':returned', dict(bound), result)
     return result
 
 
+def _havoc_modified(interp, c, bound):
+    """Call site of a contract with `modifies`: the named mutable lists / iterators get arbitrary new contents
+    (in place: aliases see the same object); what is known afterwards is what `ensures` says."""
+    from .mlist import MList
+    from .models import SIter
+    st = interp.st
+    k = st.counters.get('call!modifies', 0)
+    st.counters['call!modifies'] = k + 1
+    tag = 'call%d' % k
+    for path in c.modifies:
+        parts = path.split('.')
+        if parts[0] not in bound:
+            raise Unsupported('modifies %r of %s: no such parameter' % (path, c.qname))
+        obj = bound[parts[0]]
+        owner = None
+        ty = c.params.get(parts[0])
+        for a in parts[1:]:
+            owner = obj
+            obj = interp.getattr(obj, a)
+            ty = getattr(ty, 'fields', {}).get(a)
+        if isinstance(obj, (SOpt, SChoice)):
+            obj = interp.resolve(obj)
+        if type(obj) is list and owner is not None and not contains_sym(obj, 0) and hasattr(ty, 'shape'):
+            # a concrete list held in a field of an object (e.g. Partitioning([], [], [])): it becomes a symbolic
+            # mutable list in that field.  Sound only if the field is the single reference to the list object:
+            # checked (references: the field, the variable `obj`, the argument of getrefcount).
+            import sys
+            if sys.getrefcount(obj) > 3:
+                raise Unsupported('contract %s modifies %r: the concrete list in that field is referenced from '
+                                  'elsewhere too' % (c.qname, path))
+            from .mlist import from_concrete
+            m = from_concrete(interp, obj, path) if obj else MList(interp, st.fresh_name(path), ty.shape())
+            m.is_deque = getattr(ty, 'deque', False)
+            interp.setattr(owner, parts[-1], m)
+            obj = m
+        if isinstance(obj, MList):
+            obj.havoc(interp, tag)
+        elif isinstance(obj, SIter):
+            p0 = to_z3(obj.pos) if not isinstance(obj.pos, int) else z3.IntVal(obj.pos)
+            p1 = st.fresh_int('%s.pos@%s' % (obj.xs.uid, tag))
+            st.assume(z3.And(p1 >= p0, z3.Or(p1 <= obj.xs.length, p1 == p0)))
+            obj.pos = wrap(p1)
+        elif isinstance(obj, list):
+            raise Unsupported('contract %s modifies %r, but the caller passes a concrete list: declare the '
+                              'caller\'s local in its contract (locals=dict(name=MListOf(...)))' % (c.qname, path))
+        else:
+            # symbolic maps (and objects that hold them): the mutable state reachable from the named
+            # parameter / field is forgotten; the clauses relate it to `old`
+            from . import models
+            if not models.havoc_mutable(interp, obj, '%s.%s' % (tag, c.qname.rpartition(':')[2])):
+                raise Unsupported('modifies %r of %s: nothing to havoc (neither a symbolic mutable list, an '
+                                  'iterator nor a symbolic map)' % (path, c.qname))
+
+
+def _snapshot_fields(interp, args):
+    """(path -> value) of the instance attributes reachable from the parameters (two levels, plus the declared
+    attributes of opaque objects held in fields), to check the frame of a contract with `modifies`."""
+    from .values import Opaque
+    snap = {}
+
+    def fields(obj):
+        if isinstance(obj, Opaque):
+            return dict(obj._pv_attrs)
+        d = getattr(obj, '__dict__', None)
+        if isinstance(d, dict) and not isinstance(obj, (type, Sym)) and type(obj).__module__ != 'builtins':
+            return dict(d)
+        return None
+
+    def walk(prefix, obj, depth):
+        fs = fields(obj)
+        if fs is None:
+            return
+        for k, v in fs.items():
+            if not isinstance(k, str):
+                continue
+            path = '%s.%s' % (prefix, k)
+            snap[path] = (obj, k, v)
+            if depth < 3:
+                walk(path, v, depth + 1)
+
+    for name, v in args.items():
+        walk(name, v, 0)
+    return snap
+
+
+def _same_value(a, b):
+    if a is b:
+        return True
+    if isinstance(a, (SInt, SBool)) and type(a) is type(b):
+        return a.t.eq(b.t)
+    from .values import SStr
+    if isinstance(a, SStr) and isinstance(b, SStr):
+        return a.t.eq(b.t)
+    if isinstance(a, (int, str, bool, type(None))) and type(a) is type(b):
+        return a == b
+    return False
+
+
+def _check_frame(interp, c, args, before, fname):
+    """every field that differs from the snapshot must be covered by a `modifies` entry (itself or a prefix)"""
+    after = _snapshot_fields(interp, args)
+    declared = list(c.modifies or {})
+    bad = []
+    for path, (obj, k, v0) in before.items():
+        cur = after.get(path)
+        if cur is None:
+            # the holder itself was replaced: reported at the holder's path
+            continue
+        if cur[0] is not obj:
+            continue
+        if not _same_value(v0, cur[2]):
+            if not any(path == d or path.startswith(d + '.') for d in declared):
+                bad.append(path)
+    for path in after:
+        if path not in before and not any(path == d or path.startswith(d + '.') for d in declared):
+            par = path.rpartition('.')[0]
+            if par in before and after.get(par) is not None and before[par][2] is after[par][2]:
+                # a new attribute on an object that existed before (lazily created interface attributes are
+                # reads, not writes: they are only in _pv_attrs once read)
+                from .values import Opaque
+                if not isinstance(after[path][0], Opaque):
+                    bad.append(path)
+    interp.st.oblige('%s : frame[modifies %s]' % (fname, ', '.join(declared) or 'nothing'), not bad,
+                     {'kind': 'frame', 'changed_outside_frame': bad})
+
+
 def _make_exc(interp, exc_cls, spec, env):
-    sh = spec.get('shape')
-    if isinstance(sh, Ty):          # an arbitrary exception object of this shape
-        return sh.make(interp, 'exc')
     mk = spec.get('make')
     if mk is not None:
         return _call_pred(interp, mk, env)
+    shape = spec.get('shape')       # Ty of the exception object as callers see it
+    if isinstance(shape, Dependent):
+        return shape.make_for_call(interp, 'exc.%s' % getattr(exc_cls, '__name__', 'exc'), env)
+    if isinstance(shape, Ty):
+        return shape.make(interp, 'exc.%s' % getattr(exc_cls, '__name__', 'exc'))
     if isinstance(exc_cls, Ty):
         return exc_cls.make(interp, 'exc')
     try:
         return exc_cls()
     except TypeError:
         return exc_cls.__new__(exc_cls)
-
-
-def _modified_object(interp, bound, path):
-    """'self' or 'self._document_source': a parameter, or an object reached from it by attribute names."""
-    parts = path.split('.')
-    if parts[0] not in bound:
-        raise Unsupported('modifies: %r is not a parameter' % parts[0])
-    obj = bound[parts[0]]
-    for a in parts[1:]:
-        obj = interp.getattr(obj, a)
-    if isinstance(obj, (SOpt, SChoice)):
-        obj = interp.resolve(obj)
-    return obj
-
-
-def havoc_modifies(interp, c, bound):
-    """Call site of a contract with a frame: the declared attributes get arbitrary new values."""
-    for path, attrs in c.modifies.items():
-        obj = _modified_object(interp, bound, path)
-        if obj is None:
-            continue
-        from .api import HavocBy
-        if isinstance(attrs, HavocBy):
-            # the object becomes arbitrary in its own way (e.g. by an environment step that is known to
-            # cover every state the postcondition allows)
-            interp.note_heap_write(obj, None)
-            import inspect as _inspect
-            if len(_inspect.signature(attrs.fn).parameters) >= 3:
-                attrs.fn(interp, obj, bound)       # (the new state may refer to the other arguments)
-            else:
-                attrs.fn(interp, obj)
-            continue
-        for attr, ty in attrs.items():
-            interp.note_heap_write(obj, attr)
-            v = ty.make(interp, 'post.%s.%s' % (path, attr)) if isinstance(ty, Ty) else ty
-            interp.setattr(obj, attr, v)
-
-
-_MISSING = object()
-
-
-def _snap_value(v):
-    if isinstance(v, list):
-        return ('list', v, list(v))
-    if isinstance(v, dict):
-        return ('dict', v, dict(v))
-    return ('obj', v, None)
-
-
-def snapshot_frame(interp, c, bound):
-    """Before the call: the attributes of every plain-instance parameter (and of every object named in
-    `modifies`), one level of list / dict contents included."""
-    snaps = {}
-    paths = list(bound.keys()) + [p for p in c.modifies if p not in bound]
-    for path in paths:
-        try:
-            obj = _modified_object(interp, bound, path)
-        except PyRaise:
-            continue
-        d = getattr(obj, '__dict__', None)
-        if obj is None or isinstance(obj, (Sym, type, types.FunctionType, types.ModuleType)) or not isinstance(d, dict):
-            continue
-        from .values import Opaque
-        if isinstance(obj, Opaque):
-            continue
-        snaps[path] = (obj, {k: _snap_value(v) for k, v in d.items()})
-    return snaps
-
-
-def check_frame(interp, c, snaps, fname):
-    """After the call (normal or exceptional): everything outside `modifies` is unchanged."""
-    st = interp.st
-    for path, (obj, before) in snaps.items():
-        allowed = c.modifies.get(path, {})
-        from .api import HavocBy
-        if isinstance(allowed, HavocBy):
-            continue
-        after = obj.__dict__
-        for k in sorted(set(before) | set(after)):
-            if k in allowed:
-                continue
-            b = before.get(k, _MISSING)
-            a = after.get(k, _MISSING)
-            name = '%s : frame[%s.%s unchanged]' % (fname, path, k)
-            if b is _MISSING or a is _MISSING:
-                st.oblige(name, False, {'kind': 'frame'})
-                continue
-            kind, bv, content = b
-            if a is not bv:
-                same = interp.eq(a, bv) if isinstance(a, (Sym, int, str, bool, type(None))) and \
-                    isinstance(bv, (Sym, int, str, bool, type(None))) else False
-                st.oblige(name, same, {'kind': 'frame'})
-                continue
-            if kind == 'list':
-                ok = len(a) == len(content) and all(x is y for x, y in zip(a, content))
-                st.oblige(name, ok, {'kind': 'frame', 'what': 'list contents'})
-            elif kind == 'dict':
-                ok = set(a) == set(content) and all(a[q] is content[q] for q in content)
-                st.oblige(name, ok, {'kind': 'frame', 'what': 'dict contents'})
-            else:
-                st.oblige(name, True, {'kind': 'frame'})
 
 
 class FunctionReport:
@@ -358,7 +429,9 @@ class FunctionReport:
         self.unknown_feasibility = 0
         self.feasibility_queries = 0
         self.slow_queries = []
+        self.uncovered = []        # 'line N: <source>' of return/raise statements no feasible path reached
         self.deps_sha = None
+        self.dep_shas = {}         # qualified name -> sha256 of the source text (the function itself under '')
 
 
 def verify_function(reg, c, budget_paths=MAX_PATHS):
@@ -366,12 +439,21 @@ def verify_function(reg, c, budget_paths=MAX_PATHS):
     rep = FunctionReport(c.qname)
     t0 = time.time()
     func = c.func
+    reg.current_props = tuple(c.props)
+    mod = getattr(c, 'module', None)
+    scope = [getattr(mod, 'prop', None)] + sorted(getattr(mod, 'uses', ())) + list(c.props)
+    reg.current_scope = tuple(dict.fromkeys(x for x in scope if x))
     info = frontend.funcinfo_of(func)
     rep.source = '%s:%d' % (info.filename, info.node.lineno)
     rep.sha = info.source_sha
     worklist = [[]]
     seen = 0
-    reached = set()
+    import ast as _ast
+    from .loops import _walk_own
+    # exits of the function's own body (nested functions that are only defined, not called, do not count)
+    exits = {n.lineno for n in _walk_own(info.node) if isinstance(n, (_ast.Return, _ast.Raise))} \
+        if not isinstance(info.node, _ast.Lambda) else set()
+    covered = set()
     while worklist:
         prefix = worklist.pop()
         seen += 1
@@ -382,15 +464,20 @@ def verify_function(reg, c, budget_paths=MAX_PATHS):
         st = PathState(prefix, stats)
         interp = Interp(st, reg)
         interp.fn_name = c.qname
-        interp.cover_node = info.node
+        interp.cover_file = info.filename
         try:
             _run_path(interp, reg, c, func, rep)
             rep.paths += 1
-            reached |= st.reached      # (the path is satisfiable: _run_path ends with the vacuity guard)
+            covered |= st.reached
         except PathAbort:
             rep.aborted_paths += 1
         except RetryPath as r:
             worklist.append(r.prefix)
+            # alternatives discovered BEFORE the retry site are replayed from the prefix on the re-run,
+            # i.e. never re-discovered: keep them (those after the site will be found again)
+            for p in st.pending:
+                if len(p) < len(r.prefix):
+                    worklist.append(p)
             _cleanup(st)
             continue
         except Unsupported as u:
@@ -415,21 +502,20 @@ def verify_function(reg, c, budget_paths=MAX_PATHS):
         rep.unknown_feasibility += st.unknown_feasibility
         rep.feasibility_queries += stats.get('feasibility_queries', 0)
         rep.slow_queries.extend(stats.get('slow_queries', []))
-    # Reachability cover (guard against vacuous proofs): every `return` / `raise` statement of the function
-    # must be reached by at least one satisfiable path.  One that is not means that the assumptions (precondition,
-    # postconditions of callees after a havoc, loop invariants) exclude the situations in which it executes --
-    # whatever is "proved" about them is empty.  `cover=False` on the contract switches the guard off; `cover=(n,..)`
-    # lists line numbers (relative to the `def` line) that are known to be unreachable under the precondition.
     if c.cover and not rep.unsupported and not rep.errors:
-        import ast as _ast
-        from .loops import _walk_own
-        allowed = set(c.cover) if isinstance(c.cover, (tuple, list, set)) else set()
-        for n in _walk_own(info.node):
-            if isinstance(n, (_ast.Return, _ast.Raise)) and n.lineno not in reached \
-                    and (n.lineno - info.node.lineno) not in allowed:
-                rep.unsupported.append('vacuity guard: the %s statement at line %d (def + %d) is not reached by any '
-                                       'satisfiable path' % ('return' if isinstance(n, _ast.Return) else 'raise',
-                                                             n.lineno, n.lineno - info.node.lineno))
+        # reachability cover (DESIGN 2.4): every return / raise of the function must lie on a feasible
+        # path, otherwise assumptions (preconditions, assumed postconditions of callees) cut it off and
+        # the obligations on that exit were never generated
+        try:
+            lines = frontend.parse_file(info.filename)[0].splitlines()
+        except Exception:
+            lines = []
+        allowed = c.cover if isinstance(c.cover, (tuple, list)) else ()
+        for ln in sorted(exits - covered):
+            text = lines[ln - 1].strip() if 0 < ln <= len(lines) else ''
+            if any(a in text for a in allowed):
+                continue
+            rep.uncovered.append('line %d: %s' % (ln, text))
     rep.wall = time.time() - t0
     rep.deps_sha = _deps_sha(reg, c, rep)
     return rep
@@ -441,15 +527,23 @@ def _deps_sha(reg, c, rep):
     import hashlib
     import importlib
     parts = [rep.sha or '']
+    rep.dep_shas = {'': rep.sha or ''}
     for q in sorted(rep.inlined):
-        modname, _, path = q.partition(':')
-        try:
-            obj, _owner = frontend.resolve_qualified(q)
-            f = frontend.raw_function(obj)
-            parts.append(q + '=' + (frontend.funcinfo_of(f).source_sha or ''))
-        except Exception:
-            parts.append(q + '=?')
+        sha = source_sha_of(q)
+        rep.dep_shas[q] = sha
+        parts.append(q + '=' + sha)
     return hashlib.sha256('\n'.join(parts).encode()).hexdigest()
+
+
+def source_sha_of(q):
+    """sha256 of the current source text of the repository function with this qualified name ('?' if it
+    cannot be located any more)"""
+    try:
+        obj, _owner = frontend.resolve_qualified(q)
+        f = frontend.raw_function(obj)
+        return frontend.funcinfo_of(f).source_sha or ''
+    except Exception:
+        return '?'
 
 
 def _cleanup(st):
@@ -473,14 +567,22 @@ def make_inputs(interp, c):
 
 def _run_path(interp, reg, c, func, rep):
     st = interp.st
+    if getattr(getattr(c, 'module', None), 'string_alignment', False):
+        st.ghost['__align__'] = True      # (pyvc.strings: positions and searches are aligned with known pieces)
     args, ghosts = make_inputs(interp, c)
     reg.ghost_env = dict(ghosts)
+    # ghost (monitor) variables declared in `modifies`: the function starts in an arbitrary monitor state
+    from .api import Dependent as _Dependent
+    for key, ty in (c.modifies.items() if isinstance(c.modifies, dict) else ()):
+        if key.startswith('ghost:') and isinstance(ty, Ty) and not isinstance(ty, _Dependent):
+            st.ghost[key[6:]] = ty.make(interp, key)
     if c.setup is not None:
         extra = c.setup(interp, args, ghosts)
         if extra:
             ghosts.update(extra)
             reg.ghost_env.update(extra)
     env = _clause_env(args, ghosts, {'trace': st.trace, 'ghost': st.ghost})
+    interp.root_values = [args, ghosts]
     if c.requires is not None:
         st.assume(interp.truth(_call_pred(interp, c.requires, env, assumed='aligned')))
     if st.check() == z3.unsat:
@@ -488,7 +590,28 @@ def _run_path(interp, reg, c, func, rep):
     old = None
     if c.old is not None:
         old = _call_pred(interp, c.old, env)
+        env = dict(env, old=old)      # `when` conditions of exceptional outcomes may mention the pre-state
         reg.ghost_env['old'] = old        # visible to loop invariants
+        interp.root_values.append(old)
+    # `when` conditions of exceptional outcomes are predicates of the PRE-state: evaluated before the call
+    # (the function may mutate its arguments)
+    when_values = {}
+    for exc_cls, spec in c.raises.items():
+        if spec.get('when') is not None:
+            when_values[exc_cls] = interp.truth(_call_pred(interp, spec['when'], env))
+    # frame: symbolic maps reachable from parameters that the contract does not list in `modifies`
+    # must be unchanged on every outcome
+    from . import models as _models
+    frame_snap = []
+    mods = tuple(c.modifies or ())
+    for pname, pval in args.items():
+        if pname in mods:
+            continue
+        for path_, m_ in _models.reachable_smaps(pval):
+            full = (pname + path_).replace('?', '')
+            if any(full == m or full.startswith(m + '.') for m in mods):
+                continue
+            frame_snap.append((pname + path_, m_, m_.has, m_.val))
     # positional order of the real function
     code = func.__code__
     names = list(code.co_varnames[:code.co_argcount + code.co_kwonlyargcount])
@@ -504,16 +627,10 @@ def _run_path(interp, reg, c, func, rep):
     pos = [args[n] for n in names[:code.co_argcount]]
     kw = {n: args[n] for n in names[code.co_argcount:] if n in args}
     outcome = None
-    pre_whens = {}
-    snaps = None
-    if c.modifies is not None:
-        # the function may change its arguments: `when` conditions speak about the pre-state, and
-        # everything outside the declared frame must be unchanged afterwards
-        for exc_cls, spec in c.raises.items():
-            if spec.get('when') is not None:
-                pre_whens[exc_cls] = interp.truth(_call_pred(interp, spec['when'], env))
-        snaps = snapshot_frame(interp, c, args)
+    frame_before = _snapshot_fields(interp, args) if isinstance(c.modifies, dict) else None
+    ghost0 = dict(st.ghost)
     info = frontend.funcinfo_of(func)
+    mlists_before = _mutable_lists_of(args)
     yseq = None
     if info.is_generator:
         from .gens import YSeq
@@ -531,22 +648,32 @@ def _run_path(interp, reg, c, func, rep):
     key = 'return' if outcome[0] == 'return' else type(outcome[1]).__name__
     rep.outcomes[key] = rep.outcomes.get(key, 0) + 1
     fname = c.qname
-    if snaps is not None:
-        check_frame(interp, c, snaps, fname)
+    if frame_before is not None:
+        _check_frame(interp, c, args, frame_before, fname)
+    # frame: a symbolic mutable list reachable from the parameters that the function changed must be declared in
+    # `modifies` (call sites keep everything else they know about such a list)
+    mlists_after = _mutable_lists_of(args)
+    for path, (m, version) in mlists_before.items():
+        now = mlists_after.get(path)
+        if (now is None or now[0] is not m or now[1] != version) and path not in c.modifies:
+            st.oblige('%s : frame[%s is not modified]' % (fname, path), False, {'kind': 'frame'})
+    for (where, m_, has0, val0) in frame_snap:
+        same = True if (m_.has is has0 and m_.val is val0) else wrap(z3.And(m_.has == has0, m_.val == val0))
+        st.oblige('%s : frame[%s unchanged]' % (fname, where), same, {'kind': 'frame'})
     if outcome[0] == 'return':
         env2 = _clause_env(args, ghosts, {'result': outcome[1], 'old': old, 'trace': st.trace, 'ghost': st.ghost})
         # a declared deterministic `when` exception must have been raised
         for exc_cls, spec in c.raises.items():
             when = spec.get('when')
             if when is not None:
-                w = pre_whens[exc_cls] if exc_cls in pre_whens else interp.truth(_call_pred(interp, when, env))
+                w = when_values[exc_cls]
                 st.oblige('%s : raises[%s] when-condition implies raise' % (fname, _exc_name(exc_cls)),
                           interp.not_(w), {'kind': 'exc-post'})
         for name, clause in c.ensures.items():
-            if isinstance(clause, tuple) and callable(clause[1]):
+            if isinstance(clause, tuple):
+                if clause[1] != 'check-only' and not callable(clause[1]):
+                    continue
                 clause = clause[0]
-            elif isinstance(clause, tuple):
-                continue
             _oblige_clause(interp, '%s : ensures[%s]' % (fname, name), clause, env2, {'kind': 'post'})
     else:
         exc = outcome[1]
@@ -556,16 +683,13 @@ def _run_path(interp, reg, c, func, rep):
                 matched = True
                 env2 = _clause_env(args, ghosts, {'exc': exc, 'old': old, 'trace': st.trace, 'ghost': st.ghost})
                 when = spec.get('when')
-                if when is not None and exc_cls in pre_whens:
-                    st.oblige('%s : raises[%s] only when' % (fname, _exc_name(exc_cls)), pre_whens[exc_cls],
+                if when is not None:
+                    st.oblige('%s : raises[%s] only when' % (fname, _exc_name(exc_cls)), when_values[exc_cls],
                               {'kind': 'exc-post'})
-                elif when is not None:
-                    _oblige_clause(interp, '%s : raises[%s] only when' % (fname, _exc_name(exc_cls)),
-                                   when, env, {'kind': 'exc-post'})
                 st.oblige('%s : raises[%s] is a declared outcome' % (fname, _exc_name(exc_cls)), True,
                           {'kind': 'exc-post'})
                 ens = spec.get('ensures')
-                if isinstance(ens, tuple) and callable(ens[1]):
+                if isinstance(ens, tuple):
                     ens = ens[0]
                 if ens is not None:
                     _oblige_clause(interp, '%s : raises[%s] ensures' % (fname, _exc_name(exc_cls)),
@@ -584,13 +708,69 @@ def _run_path(interp, reg, c, func, rep):
                                                                      + list(allowed or ()))),
                           isinstance(exc, tuple(allowed)) if allowed else False,
                           {'kind': 'raises-only', 'exception': repr(exc)})
+    # frame of the ghost (monitor) state: variables not declared in `modifies` are unchanged
+    if isinstance(c.modifies, dict):
+        for key in sorted(k for k in set(ghost0) | set(st.ghost) if isinstance(k, str)):
+            if ('ghost:' + key) in c.modifies:
+                continue
+            if key.startswith('__'):
+                continue        # bookkeeping of the engine (string pieces, caches, character classes): not monitor state
+            v0, v1 = ghost0.get(key, _MISSING), st.ghost.get(key, _MISSING)
+            if v0 is v1:
+                continue
+            if isinstance(v0, (int, bool, str, SInt, SBool)) and isinstance(v1, (int, bool, str, SInt, SBool)) \
+                    or (hasattr(v0, 't') and hasattr(v1, 't')):
+                same = interp.eq(v0, v1)
+            else:
+                same = False
+            st.oblige('%s : frame[ghost %s unchanged]' % (fname, key), same, {'kind': 'frame'})
     # vacuity guard: the path must be satisfiable, otherwise its obligations say nothing
     if st.check() == z3.unsat:
+        if os.environ.get('PYVC_TRACE_UNSAT'):
+            sv = z3.Solver()
+            sv.set('timeout', 20000)
+            ps = []
+            for i, t in enumerate(st.pc):
+                p_ = z3.Bool('pc!%d' % i)
+                sv.assert_and_track(t, p_)
+                ps.append((p_, t))
+            print('PYVC_TRACE_UNSAT: vacuous path at the end of %s (outcome %s, %d decisions); unsat core:'
+                  % (fname, key, len(st.decisions)), sv.check(), flush=True)
+            core = set(str(x) for x in sv.unsat_core())
+            for p_, t in ps:
+                if str(p_) in core:
+                    print('      ', str(t)[:400].replace('\n', ' '), flush=True)
         st.obligations[:] = [o for o in st.obligations if o[3].get('kind') in ('callee-pre', 'loop-entry')]
         raise PathAbort()
     if c.raises_only is not None and outcome[0] == 'return':
         st.oblige('%s : raises_only(%s)' % (fname, ', '.join(_exc_name(e) for e in list(c.raises) + list(c.may_raise)
                                                             + list(c.raises_only))), True, {'kind': 'raises-only'})
+
+
+_MISSING = object()
+
+
+def _mutable_lists_of(args):
+    """{access path: (MList, version)} of the symbolic mutable lists reachable from the arguments through the
+    fields of repository objects"""
+    from .mlist import MList
+    from .interp import _is_repo_class
+    out = {}
+
+    def walk(v, path, depth):
+        if isinstance(v, MList):
+            out[path] = (v, v.version)
+            return
+        if depth <= 0 or isinstance(v, (Sym, str, int, float, type(None), list, tuple, dict)):
+            return
+        d = getattr(v, '__dict__', None)
+        if isinstance(d, dict) and _is_repo_class(type(v)):
+            for k, x in d.items():
+                walk(x, '%s.%s' % (path, k), depth - 1)
+
+    for name, v in args.items():
+        walk(v, name, 3)
+    return out
 
 
 def _shape_of_ty(ty):
